@@ -5,6 +5,7 @@ import (
 	"go/constant"
 	"go/token"
 	"go/types"
+	"sort"
 	"strings"
 
 	"golang.org/x/tools/go/ssa"
@@ -451,7 +452,33 @@ func (w *W) intrinsic(f *frame, fn *ssa.Function, args []Value, key int, g *Term
 			return nil
 		}})
 	case "(*sync.Cond).Signal":
-		panic("cannot encode: sync.Cond.Signal")
+		// wakes one parked goroutine, chosen by the solver (Go makes no promise which)
+		p := ptr(0)
+		pick := Var(fmt.Sprintf("signal_pick_t%d_k%d", t.id, key), 8)
+		_, g = w.op(t, key, g, opSpec{yield: true, sync: true, pos: pos, kind: "Cond.Signal", effect: func(exec *Term) Value {
+			for _, a := range p.alts {
+				if a.l == nil {
+					continue
+				}
+				var names []string
+				for k := range a.l.obj.cells {
+					if strings.HasPrefix(k, "parked.") {
+						names = append(names, k)
+					}
+				}
+				sort.Strings(names)
+				anyParked, chosen := False, False
+				for i, k := range names {
+					pk := w.getCell(a.l.obj, k, False).(*Term)
+					anyParked = Or(anyParked, pk)
+					c := And(pk, Eq(pick, BV(8, uint64(i))))
+					chosen = Or(chosen, c)
+					w.setCell(And(exec, a.g, c), a.l.obj, k, False, False)
+				}
+				w.assumes = And(w.assumes, Implies(And(exec, a.g, anyParked), chosen))
+			}
+			return nil
+		}})
 	// ---- sync.Pool
 	case "(*sync.Pool).Get":
 		r, g = w.poolGet(f, fn, ptr(0), key, g, pos)
